@@ -120,6 +120,7 @@ pub struct Stats {
 
 impl Stats {
     pub fn record(&mut self, case_json: impl FnOnce() -> Value, hash: u64, out: &Outcome) {
+        beat();
         self.evaluations += 1;
         for c in &out.classes {
             *self.classes.entry((*c).to_string()).or_default() += 1;
@@ -139,6 +140,7 @@ impl Stats {
     }
     /// Records a case of an enumeration (distinct from every other case by construction).
     pub fn record_enumerated(&mut self, case_json: impl FnOnce() -> Value, out: &Outcome) {
+        beat();
         self.evaluations += 1;
         for c in &out.classes {
             *self.classes.entry((*c).to_string()).or_default() += 1;
@@ -176,9 +178,44 @@ impl Stats {
 
 static LAST_PANIC: Mutex<Option<String>> = Mutex::new(None);
 
+/// Bumped whenever a case starts or is recorded; the watchdog thread of a worker looks at it.
+pub static HEARTBEAT: std::sync::atomic::AtomicU64 = std::sync::atomic::AtomicU64::new(0);
+
+pub fn beat() {
+    HEARTBEAT.fetch_add(1, std::sync::atomic::Ordering::Relaxed);
+}
+
+/// Exit status of a worker whose current case did not finish within the per-case limit.
+pub const HANG_EXIT: i32 = 86;
+
+/// Per-case watchdog: when no case starts or finishes for `limit_s` seconds the process leaves through `on_expire`
+/// (cases normally take milliseconds; the limit is two orders of magnitude above the slowest legitimate case).
+pub fn start_watchdog(limit_s: u64, on_expire: fn() -> i32) {
+    std::thread::spawn(move || {
+        let mut last = HEARTBEAT.load(std::sync::atomic::Ordering::Relaxed);
+        let mut since = std::time::Instant::now();
+        loop {
+            std::thread::sleep(std::time::Duration::from_millis(500));
+            let now = HEARTBEAT.load(std::sync::atomic::Ordering::Relaxed);
+            if now != last {
+                last = now;
+                since = std::time::Instant::now();
+            } else if since.elapsed().as_secs() >= limit_s {
+                let code = on_expire();
+                std::process::exit(code);
+            }
+        }
+    });
+}
+
+pub fn case_limit_s() -> u64 {
+    std::env::var("VH_CASE_LIMIT").ok().and_then(|s| s.parse().ok()).unwrap_or(60)
+}
+
 /// In trace mode (`VH_TRACE=<file>`, used when a worker died abnormally) every case is written out before it runs,
 /// so that the input that aborts the process can be recovered.
 pub fn trace_case(unit: &str, case: impl FnOnce() -> Value) {
+    beat();
     static PATH: std::sync::OnceLock<Option<String>> = std::sync::OnceLock::new();
     if let Some(p) = PATH.get_or_init(|| std::env::var("VH_TRACE").ok()) {
         let body = serde_json::json!({"unit": unit, "case": case()});
